@@ -280,3 +280,9 @@ step! { unknown;
         std::mem::forget(decls); std::mem::forget(defs);
     }
 }
+
+modelled! {
+    #[kani::unwind(33)]
+    #[kani::stub(customasm::asm::resolver::resolve_once, resolve_once_nd)]
+    fn c02_a_iter_protocol30() { iter_protocol(30) }
+}
